@@ -247,6 +247,8 @@ def run_leg(leg, modname, cases, dirs, timeout=600):
     out = {}
     todo = list(cases)
     restarts = 0
+    hung = ("", -1)
+    timeout = max(timeout, 900 + len(cases))
     wd = core.subdir("run_%s_%s" % (leg, modname))
     while todo and restarts < 60:
         req = {"leg": "P" if leg == "P" else "C", "module": modname, "suffix": core.ext_suffix(),
@@ -294,6 +296,11 @@ def run_leg(leg, modname, cases, dirs, timeout=600):
             core.die("C35: driver did not start (%s %s): rc=%s %s" % (leg, modname, r.rc, r.err[-1500:]))
         # the child died: during `cur`, or between cases
         restarts += 1
+        if r.timed_out and cur != hung:
+            # out of time (loaded machine): go on with what is left; a case that runs out of time twice is a hang
+            hung = cur
+            todo = [c for c in todo if tuple(c) not in out]
+            continue
         if cur is not None:
             out[cur] = {"crash": True, "signal": r.signal, "timed_out": r.timed_out, "stderr": r.err[-600:],
                         "report": pend_lines}
@@ -569,7 +576,7 @@ def run(tier, seed):
         "cpython_leg_drift": len(rep.drift), "known_findings": rep.kf_summary(), "samples": samples,
         "exhaustive": False,
     }
-    core.write_evidence(PROP, tier, seed, "model_checking", cov, wall, assumptions=[
+    core.write_evidence(PROP, tier, seed, "fault_enumeration", cov, wall, assumptions=[
         "tracked objects are instances of a Python class (weakref + sys.getrefcount); references held by C-level "
         "structures other than the result, the module global and the arguments are not modelled",
         "the recording stand-in implements the documented six-function RefNannyAPI and withholds a DECREF the context "
